@@ -163,9 +163,10 @@ def rule_pow(ctx: Ctx, rep: Report) -> None:
     vx = VX.of(bt)
     rep.ob(rule, "encode:exponent", vx.anywhere("($$v.bit_length() + 7) // 8") or vx.anywhere("-(-$$v.bit_length() // 8)") or vx.anywhere("(7 + $$v.bit_length()) // 8"), bt.where(), "exponent = byte length of the value")
     me: dict[str, str] = {}
-    piv = PT.find(bt.node, "if $e <= 3:\n    $s = $v << 8 * (3 - $e)\nelse:\n    $s = $v >> 8 * ($e - 3)", me) or PT.find(bt.node, "if $e < 3:\n    $s = $v << 8 * (3 - $e)\nelse:\n    $s = $v >> 8 * ($e - 3)", me) \
-        or PT.find(bt.node, "if $e > 3:\n    $s = $v >> 8 * ($e - 3)\nelse:\n    $s = $v << 8 * (3 - $e)", me)
-    rep.ob(rule, "encode:pivot", piv is not None, bt.where(piv), "shift left at or below 3, right above")
+    vxb = VX.of(bt)
+    piv = any(vxb.anywhere(p_) for p_ in ("$$v << 8 * (3 - $$e) if $$e <= 3 else $$v >> 8 * ($$e - 3)", "$$v << 8 * (3 - $$e) if $$e < 3 else $$v >> 8 * ($$e - 3)",
+                                         "$$v >> 8 * ($$e - 3) if $$e > 3 else $$v << 8 * (3 - $$e)", "$$v >> 8 * ($$e - 3) if $$e >= 3 else $$v << 8 * (3 - $$e)"))
+    rep.ob(rule, "encode:pivot", piv, bt.where(), "shift left at or below 3, right above")
     sb = PT.find(bt.node, "if $s & _SIGNIFICAND_SIGN_BIT:\n    $s >>= 8\n    $e += 1", me)
     rep.ob(rule, "encode:sign_bit", sb is not None, bt.where(sb), "a mantissa with the sign bit set is shifted and the exponent incremented")
     rep.ob(rule, "encode:length", any(c.subject.startswith("len(") and c.op in (">", ">=") for c in refusal_constraints(ctx, bt)), bt.where(), "targets longer than 32 bytes refused")
